@@ -283,10 +283,11 @@ func call(x *ast.CallExpr) string {
 		case "make":
 			if len(x.Args) >= 1 {
 				if isMapType(x.Args[0]) {
-					return "(GE.call " + lstr("makemap:"+tyStr(x.Args[0])) + " [])"
+					// (the size hint of a map is not evaluated: it has no effect on the map)
+					return "(GE.call \"makemap\" [(GE.lit (GV.str " + lstr(tyStr(x.Args[0])) + "))])"
 				}
 				if _, ok := x.Args[0].(*ast.ArrayType); ok && len(x.Args) >= 2 {
-					return "(GE.call " + lstr("makeslice:"+tyStr(x.Args[0])) + " " + exprs(x.Args[1:2]) + ")"
+					return "(GE.call \"makeslice\" [(GE.lit (GV.str " + lstr(tyStr(x.Args[0])) + ")), " + expr(x.Args[1]) + "])"
 				}
 			}
 			return unsupported("make", x)
